@@ -322,6 +322,37 @@ impl<'a> Exchange<'a> {
         exp
     }
 
+    /// Firmware upload: a data block is judged by what it *decodes* to (file id, offset, payload); extra
+    /// fields a block may carry are not forbidden by the property.  Blocks are rewritten to the canonical
+    /// reference encoding of those three fields before the log comparison.
+    fn normalise_data_blocks(&self, schema: &Schema, mut obs: Observed) -> Observed {
+        if self.wf.is_none() {
+            return obs;
+        }
+        let codec = Codec::new(schema);
+        let def = schema.get("feig::packets::WriteData");
+        for a in obs.abs.iter_mut() {
+            if let Abs::W(b) = a {
+                if b.len() > 3 && b[0] == 0x80 && b[1] == 0x00 {
+                    if let Ok((v, rest)) = codec.decode(def, b) {
+                        if rest.is_empty() {
+                            let id = v.path("tlv.file.file_id").and_then(|x| x.num());
+                            let off = v.path("tlv.file.file_offset").and_then(|x| x.num());
+                            let payload: Vec<u8> = match v.path("tlv.file.payload").and_then(|x| x.inner()) {
+                                Some(refcodec::val::Val::Bytes(p)) => p.clone(),
+                                _ => vec![],
+                            };
+                            if let (Some(id), Some(off)) = (id, off) {
+                                *b = WfCodec::data_block(id as u8, off as u32, &payload);
+                            }
+                        }
+                    }
+                }
+            }
+        }
+        obs
+    }
+
     /// C05: acknowledge every packet once, in order, stop at the final packet.
     pub fn check_c05(&self, r: &mut Report, schema: &Schema, prop: &str) {
         let k = self.final_at.expect("C05 exchange has a final reply") + 1;
@@ -338,6 +369,7 @@ impl<'a> Exchange<'a> {
         };
         let exp = self.expected_valid(k, true);
         let cmd_len = self.cmd_check.len();
+        let obs = self.normalise_data_blocks(schema, obs);
         // the command may legitimately differ in the order of announced files (WriteFile)
         let mut got = obs.abs.clone();
         if let (Some(Abs::W(w)), CmdCheck::WriteFile { .. }) = (got.first().cloned(), &self.cmd_check) {
@@ -382,6 +414,7 @@ impl<'a> Exchange<'a> {
             }
         };
         let cmd_len = self.cmd_check.len();
+        let obs = self.normalise_data_blocks(schema, obs);
         let mut got = obs.abs.clone();
         if let (Some(Abs::W(w)), CmdCheck::WriteFile { .. }) = (got.first().cloned(), &self.cmd_check) {
             if self.cmd_check.matches(schema, &w) {
@@ -698,7 +731,17 @@ fn junk_variants(rng: &mut Rng, pools: &Pools) -> Vec<Vec<u8>> {
 fn make_reply(sd: &StreamDef, pools: &Pools, rng: &mut Rng, variant: &str) -> Reply {
     let key = variant_key(sd, variant);
     let (bytes, dbg) = pools.pick(rng, key).clone();
-    Reply { variant: variant.to_string(), bytes, item_debug: format!("{variant}({dbg})"), answer: ACK.to_vec() }
+    Reply { variant: variant.to_string(), item_debug: item_debug(variant, key, &bytes, &dbg), bytes, answer: ACK.to_vec() }
+}
+
+/// Debug the yielded item must have: the variant wrapping what the variant's own packet type decodes from the
+/// same bytes (its *content* is C03's subject; here only "the item is the packet that arrived" is judged).
+/// Falls back to the reference rendering if that decoder fails.
+pub fn item_debug(variant: &str, key: &str, bytes: &[u8], reference_rendering: &str) -> String {
+    match crate::sut::decode_type(key, bytes) {
+        crate::sut::Outcome::Ok { debug, .. } => format!("{variant}({debug})"),
+        _ => format!("{variant}({reference_rendering})"),
+    }
 }
 
 /// A small upload directory for the WriteFile stream inside C05/C06.
@@ -730,7 +773,7 @@ fn wf_request_reply(rng: &mut Rng, dir: &PayloadDir, block: u32) -> Reply {
         _ => rng.below(file.len() as u64 + 1) as u32,
     };
     let bytes = WfCodec::request(Some(id), Some(offset), true, true);
-    let dbg = format!("RequestForData(RequestForData {{ tlv: Some(WriteData {{ file: Some(File {{ file_id: Some({id}), file_offset: Some({offset}), file_size: None, payload: None }}) }}) }})");
+    let dbg = item_debug("RequestForData", "feig::packets::RequestForData", &bytes, &format!("RequestForData {{ tlv: Some(WriteData {{ file: Some(File {{ file_id: Some({id}), file_offset: Some({offset}), file_size: None, payload: None }}) }}) }}"));
     Reply { variant: "RequestForData".into(), bytes, item_debug: dbg, answer: WfCodec::data_block(id, offset, slice_of(file, offset, block)) }
 }
 
